@@ -114,6 +114,19 @@ CLAIMED.update({
 CLAIMED["C10"]["text"] = "coq/props/C10.v: value preservation of NNF, AIG, both partitions (every order/set of the parts), Shannon, self-substitution and TimesDistributor (Int, Real) for all terms of the stated fragments and all well-sorted interpretations; shapes of NNF, AIG, QE (quantifier-free) and prenex (prefix over a quantifier-free matrix, any clashes). Prenex value preservation is proved only for quantifier-free inputs (full statement recorded; the rest is carried by the exact correspondence up to fresh-name renaming and by the oracle). propagate_toplevel is refuted on a last-step model (open finding: substitution captured by a binder) and is otherwise oracle-only."
 CLAIMED["C10"]["technique"] = "Coq structural-induction proofs over hand models of NNFizer, AIGer, partitions, Shannon and self-substitution QE, TimesDistributor and PrenexNormalizer + per-run model/implementation correspondence (exact structure; prenex up to fresh-name renaming) + independent-evaluator search oracle with exact Bool/BV quantifier evaluation and shape predicates"
 
+CLAIMED.update({
+ "C01": dict(
+   technique="Executable Coq model of every Simplifier.walk_* rule and of the FormulaManager constructors, tied to the code on every run by exact structural comparison inside Coq (~25k quick / ~130k thorough cases, all 65 operators, BV widths 1-4 exhaustive) with a permutation-checked order oracle for node-id-dependent orders; Coq proofs for every oracle: no new symbols (all operators), and type+value preservation against core/Sem.v by induction over terms with one lemma per rule on the fragment stated in props/C01.v; independent reference evaluator as search oracle for the rest",
+   text="PARTIAL. coq/props/C01.v: for all terms, `fv (simplify t)` is included in `fv t` (function names included); constants are fixed points; constant arguments fold to constants for the listed operators; and `C01_simplify_sound_partial`: for every order oracle, every term of the fragment `in_frag` (see the props file for its current extent: Boolean connectives, ITE, Equals, symbols, constants, function applications, quantifiers, and the arithmetic/bit-vector stages as they are completed), every well-formed interpretation and every division-safe term, the simplified term has the same type and the same value. Operators outside the proved fragment are modelled and correspondence-checked, and type/value preservation is decided for them by the independent evaluator on generated inputs.",
+   note="Trusted: Coq kernel, core/Sem.v (standard-library classical/real axioms as reported), hand models tied by exact correspondence, the observed-order oracle (accepted only when it is a permutation of the model's own result), harness/tocoq.py, harness/refeval.py. Open findings: Pow with 0 base and negative exponent raises; Pow with non-integer exponent goes through floats.",
+   design="4 C01"),
+ "C02": dict(
+   technique="Coq model of EagerModel.get_value / completion / Model.satisfies on top of the substituter and simplifier models, tied by exact correspondence (returned constant or error) + independent evaluation of the formula under the assignment as property-level oracle; structural theorems in Coq, exactness relative to C01/C05",
+   text="PARTIAL. coq/props/C02.v: whatever get_value returns is a constant (or constant array); completion assigns exactly the documented defaults (false, 0, 0.0, zero bit-vector) to unassigned symbols and never overrides the model. That the returned constant is the value the formula denotes is decided by (a) the exact correspondence of the model with the implementation on ~2300 (quick) / ~34k (thorough) (formula, assignment, completion) cases incl. every BV operator on every operand value at widths 1-3 (1-5), and (b) the independent evaluator on every case; as a theorem it follows from C01_simplify_sound_partial and C05_subst_lemma_partial on their fragments only.",
+   note="Trusted: as C01 and C05, plus harness/refeval.py for the oracle. Interpretations evaluating an Int/Real division by zero are skipped. UF-free, quantifier-free formulas.",
+   design="4 C02"),
+})
+
 NOT_YET = "machinery for this property is not built yet (work in progress, see DESIGN.md section 8)"
 
 def main():
